@@ -346,4 +346,98 @@ Proof.
       * intros c2 H2 Hne. exists c2. split; [|reflexivity]. apply (update_ct_in _ _ _ _ NDT). right. split; [exact H2|congruence].
 Qed.
 
+(** the entry a CREATE TABLE + CREATE INDEX of a desired table leaves is "done" *)
+Lemma created_done bx ct0 :
+  In bx B -> new_ctable (strip_idx bx) [] = Ok ct0 ->
+  done (add_idx (t_idx (x_t bx)) ct0) /\ ct_names (add_idx (t_idx (x_t bx)) ct0) = bx_names bx /\
+  t_fks (ct_t (add_idx (t_idx (x_t bx)) ct0)) = t_fks (x_t bx).
+Proof.
+  intros Hb HC. destruct (new_ctable_shape _ _ HC) as [pk [EP [E0 ER]]]. subst ct0.
+  assert (N : ct_names (add_idx (t_idx (x_t bx)) (entry_of (strip_idx bx) pk)) = bx_names bx) by reflexivity.
+  split; [|split; [exact N|reflexivity]].
+  exists bx. split; [exact Hb|]. split; [reflexivity|]. split; [apply (do_rt bx (BOK bx Hb)); exact HC|].
+  intros x Hx. rewrite N in Hx. exact Hx.
+Qed.
+
+(** *** the difference needs the rebuild *)
+Lemma step_rebuild c l T dcur s bx cs :
+  inv (c :: l) T -> incl (c :: l) T0 -> NoDup (map ct_name (c :: l)) -> db_tables dcur = T -> db_fk dcur = false ->
+  In bx B -> x_name bx = ct_name c -> tdiff (x_t (inspect_table c)) (x_t bx) = Some cs -> alterable (x_t bx) cs = false ->
+  exists pcs T', plan_loop A B [ModifyTable (x_name bx) cs] s = Some (mkPS (ps_changes s ++ pcs) true) /\
+                 step_post c l T dcur pcs T'.
+Proof.
+  intros I L NDL HT FK Hb HN HD HAL.
+  assert (Hc0 : In c T0) by (apply L; left; reflexivity).
+  assert (HcT : In c T) by (apply (iv_pending _ _ I); left; reflexivity).
+  assert (G := dk_good d0 DOK c Hc0).
+  assert (NDT := inv_table_names _ _ I).
+  assert (D := BOK bx Hb).
+  destruct (desired_cols bx D) as [NDC [CDEF _]].
+  destruct (idx_names_NoDup bx Hb) as [NDI INE].
+  destruct (do_ct bx D) as [ct0 HC].
+  destruct (new_ctable_shape _ _ HC) as [pk [EP [E0 ER]]].
+  set (a := x_t (inspect_table c)) in *. set (b := x_t bx) in *.
+  assert (FT : find_ct (x_name bx) T = Some c) by (rewrite HN; apply find_ct_unique; assumption).
+  destruct (inspect_table_fields c (g_uniq c G)) as [A1 [A2 [A3 [A4 [A5 [A6 [A7 A8]]]]]]]. fold a in A1, A2, A3, A4, A5, A6, A7, A8.
+  assert (GA : forall i, In i (t_idx a) -> sqlite_is_generated_index_name (set_t_name a (t_name b)) i = false).
+  { intros i Hi. apply not_generated_name. rewrite A6 in Hi. apply in_map_iff in Hi. destruct Hi as [i1 [E Hi1]].
+    subst i. simpl. apply (g_idx c G). exact Hi1. }
+  assert (NDA : NoDup (map c_name (t_cols a))).
+  { rewrite A4, map_map. simpl. apply (g_cols c G). }
+  destruct (rebuild_plan bx a cs HD HAL (do_noauto bx D) GA NDA NDC (do_colok bx D)) as [pcs [ins [PL [ST INS]]]].
+  fold b in ST, INS.
+  destruct (cp_new d0 B CP bx Hb) as [N1 [N2 [N3 N4]]].
+  destruct (created_done bx ct0 Hb HC) as [DN [NMS FKS]]. fold b in DN, NMS, FKS.
+  exists pcs, (remove_ct (x_name bx) T ++ [add_idx (t_idx b) ct0]).
+  split.
+  { cbn [plan_loop]. rewrite HN, (find_xtable_A c Hc0), <- HN, (find_xtable_B bx Hb).
+    rewrite (normalized_to_id bx (do_noauto bx D)). unfold a in PL. rewrite PL. reflexivity. }
+  assert (FRI : forall i, In i (t_idx b) -> ~ In (i_name i) (all_names (remove_ct (x_name bx) T)) /\ i_name i <> x_name bx).
+  { intros i Hi. split; [|apply INE; exact Hi]. intros Hin. apply in_all_names in Hin. destruct Hin as [c' [Hc' Hx]].
+    apply (remove_ct_in _ _ _ NDT) in Hc'. destruct Hc' as [Hc' Hne].
+    exact (inv_idx_fresh _ _ bx i c' I L Hb Hi Hc' Hne Hx). }
+  assert (EX : exec_all dcur (map pc_cmd pcs) = Ok (set_tables dcur (remove_ct (x_name bx) T ++ [add_idx (t_idx b) ct0]))).
+  { rewrite ST, <- HT. apply (exec_rebuild dcur bx ct0 c ins); try assumption.
+    - rewrite HT. apply (iv_names _ _ I).
+    - rewrite HT. exact FT.
+    - apply (g_rows c G).
+    - rewrite HT. intros X. destruct (inv_names_bound _ _ _ I L X) as [Y|Y]; [exact (N1 Y)|exact (N2 Y)].
+    - rewrite HT. intros c' Hc'. apply (iv_refs _ _ I c' bx Hc' Hb).
+    - apply N4. exact Hb.
+    - destruct ins as [[tc fe]|]; [|exact Logic.I]. destruct INS as [HL [HNE [HTC HFE]]].
+      unfold copy_ok. split; [exact HL|]. split; [exact HNE|]. split.
+      + intros cn Hcn. destruct (HTC cn Hcn) as [cb [Hcb [Ecb Gcb]]]. rewrite E0. unfold has_col, is_generated. cbn.
+        assert (X := find_col_nodup _ cb NDC Hcb). rewrite Ecb in X. unfold find_col, b in X. rewrite X, Gcb. split; reflexivity.
+      + intros e He. specialize (HFE e He). rewrite A4, find_col_inspect in HFE. unfold has_col.
+        destruct (find_col (sexpr_col e) (t_cols (ct_t c))); [reflexivity|contradiction].
+    - intros i Hi. rewrite <- (do_idx bx D i Hi). apply index_def_ok_cols. rewrite E0. reflexivity.
+    - rewrite HT. exact FRI. }
+  unfold step_post. repeat split.
+  - exact EX.
+  - apply all_names_snoc_NoDup.
+    + apply all_names_remove_NoDup. apply (iv_names _ _ I).
+    + rewrite NMS. apply bx_names_NoDup. exact Hb.
+    + intros x Hx Hin. rewrite NMS in Hx. destruct Hx as [Hx|Hx].
+      * (* the table name *)
+        apply in_all_names in Hin. destruct Hin as [c' [Hc' Hx']]. apply (remove_ct_in _ _ _ NDT) in Hc'. destruct Hc' as [Hc' Hne].
+        destruct Hx' as [Hx'|Hx']; [congruence|].
+        destruct (iv_all _ _ I c' Hc') as [Hl|[bx' [Hb' [Hn' [_ Hns]]]]].
+        -- apply (cp_tbl d0 B CP bx c' Hb (L c' Hl)). rewrite Hx. exact Hx'.
+        -- assert (E : bx = bx').
+           { apply (b_names_disjoint bx bx' x); auto; [left; exact Hx|]. apply Hns. right. exact Hx'. }
+           subst bx'. congruence.
+      * apply in_map_iff in Hx. destruct Hx as [i [Ei Hi]]. subst x. exact (proj1 (FRI i Hi) Hin).
+  - intros c' Hc'. apply in_or_app. left. apply (remove_ct_in _ _ _ NDT). split; [apply (iv_pending _ _ I); right; exact Hc'|].
+    inversion NDL as [|x xs Hx Hxs]; subst. intros E. apply Hx. rewrite <- HN, <- E. apply in_map. exact Hc'.
+  - intros c' Hc'. apply in_app_or in Hc'. destruct Hc' as [Hc'|[<-|[]]]; [|right; exact DN].
+    apply (remove_ct_in _ _ _ NDT) in Hc'. destruct Hc' as [Hc' Hne].
+    destruct (iv_all _ _ I c' Hc') as [[<-|H]|H]; [congruence|left; exact H|right; exact H].
+  - intros c' bx' Hc' Hb'. apply in_app_or in Hc'. destruct Hc' as [Hc'|[<-|[]]].
+    + apply (remove_ct_in _ _ _ NDT) in Hc'. apply (iv_refs _ _ I); tauto.
+    + intros f Hf. rewrite FKS in Hf. destruct (cp_new d0 B CP bx' Hb') as [_ [_ [_ M4]]]. exact (M4 bx Hb f Hf).
+  - intros bx' Hb' E. exists (add_idx (t_idx b) ct0). split; [apply in_or_app; right; left; reflexivity|].
+    rewrite E0. change (x_name bx = x_name bx'). rewrite HN, E. reflexivity.
+  - intros c2 H2 Hne. exists c2. split; [|reflexivity]. apply in_or_app. left. apply (remove_ct_in _ _ _ NDT). split; [exact H2|congruence].
+Qed.
+
 End Step.
